@@ -3,7 +3,7 @@ import SszModel.Text
 /-
   Text syntax of definitions for the `derive` / `reject` correspondence groups.
     struct:  DS<c|t|-|x><e|->(<field>;<field>;...)      field   := <n|u>[s][d]<attrs>:<Ty>
-    enum:    DE<u|g|t|-|x><s|->(<variant>|<variant>|..)  variant := <n|u>:<Ty>,<Ty>,...
+    enum:    DE<u|g|t|-|x><s|->(<variant>|<variant>|..)  variant := <n|u>[p]:<Ty>,<Ty>,...   (p: `V()` / `V {}`)
 -/
 namespace Ssz.Text
 open Ssz
@@ -35,7 +35,7 @@ def parseVariant (cs : List Char) : Option Variant :=
   | [flags, tys] =>
     let parts := if tys.isEmpty then [] else splitTop ',' tys
     (parts.mapM fun p => match parseTy p with | some (t, []) => some t | _ => none).map fun ts =>
-      { fields := ts, named := flags.head? == some 'n' }
+      { fields := ts, named := flags.head? == some 'n', parens := flags.contains 'p' }
   | _ => none
 
 def stripParens (cs : List Char) : Option (List Char) :=
